@@ -6,6 +6,7 @@ import (
 	"strings"
 	"time"
 
+	"github.com/bilibili/gengine/builder"
 	"github.com/bilibili/gengine/engine"
 	"github.com/bilibili/gengine/verifrt/vsched"
 
@@ -22,6 +23,8 @@ import (
 //   RW: g.N<i> += 1; t = t + 1; return t                                reads before its first write
 //   WP: g.N<i> += 1; t = <own id>; <rule-level panic>                   writes, then panics out of the rule body
 //   WE: g.N<i> += 1; t = <own id>; <failing statement>                  writes, then fails with an error
+//   WO: g.N<i> += 1; t = mk(<own id>); ev3("w", <own id>, t.Val()); return t.Val()
+//                                                                        its local holds an object made for this execution; reads go through a method of it
 // R and RW must fail with "not found" in every model, in every call; W must see its own value.
 
 type c15Cfg struct {
@@ -33,7 +36,19 @@ type c15Cfg struct {
 	Names []string   `json:"names,omitempty"`
 	Dag   [][]string `json:"dag,omitempty"`
 	Pool  string     `json:"pool,omitempty"` // pool method: two overlapping requests on pool (1,2)
+	// SameDc: the second call is made on the same builder and data context as the first, with nothing
+	// added in between (the other configurations give every call a data context of its own)
+	SameDc bool `json:"same_dc,omitempty"`
 }
+
+// c15Obj is what the injected mk(id) returns: an object private to one execution of one rule.
+type c15Obj struct{ V int64 }
+
+func (o *c15Obj) Val() int64 { return o.V }
+
+func c15Mk(id int64) *c15Obj { return &c15Obj{V: id} }
+
+func c15IsW(k string) bool { return k == "W" || k == "WO" }
 
 type c15G struct{ N0, N1, N2, V int64 }
 
@@ -50,6 +65,8 @@ func c15Text(cfg c15Cfg) string {
 		switch k {
 		case "W":
 			fmt.Fprintf(&sb, "  t = %s\n  ev3(\"w\", %s, t)\n  return t\n", id, id)
+		case "WO":
+			fmt.Fprintf(&sb, "  t = mk(%s)\n  ev3(\"w\", %s, t.Val())\n  return t.Val()\n", id, id)
 		case "WP": // writes its local, then panics at rule level (non-boolean condition)
 			fmt.Fprintf(&sb, "  t = %s\n  tt = 5\n  if tt {\n    t = 0\n  }\n  return t\n", id)
 		case "WE": // writes its local, then fails with an ordinary error
@@ -104,7 +121,7 @@ func c15Scenario(cfg c15Cfg) *hx.Scenario {
 				for i, c := range st.calls {
 					c, id := c, int64(100*(i+1))
 					vsched.Go(func() {
-						data := map[string]interface{}{"req": &PoolReq{Id: id}, "g": c.g, "ev3": c.log.Ev3, "zero": int64(0)}
+						data := map[string]interface{}{"req": &PoolReq{Id: id}, "g": c.g, "ev3": c.log.Ev3, "zero": int64(0), "mk": c15Mk}
 						c.err, c.res, c.pan = gx.PoolCallGuarded(pm, gp, data, p)
 						c.res = gx.CopyResult(c.res)
 					})
@@ -115,8 +132,13 @@ func c15Scenario(cfg c15Cfg) *hx.Scenario {
 			g := engine.NewGengine()
 			m := gx.ModelByName(cfg.Model)
 			p := gx.Params{B: cfg.B, N: cfg.N, M: cfg.M, Names: cfg.Names, Dag: cfg.Dag}
-			for _, c := range st.calls {
-				rb := gx.Fresh(src, c.log, map[string]interface{}{"g": c.g, "zero": int64(0)})
+			var rb *builder.RuleBuilder
+			for ci, c := range st.calls {
+				if cfg.SameDc && ci > 0 {
+					c.g, c.log = st.calls[0].g, st.calls[0].log
+				} else {
+					rb = gx.Fresh(src, c.log, map[string]interface{}{"g": c.g, "zero": int64(0), "mk": c15Mk})
+				}
 				c.err, c.pan = gx.CallGuarded(func() error { return m.Call(g, rb, p) })
 				r, _ := g.GetRulesResultMap()
 				c.res = gx.CopyResult(r)
@@ -146,7 +168,7 @@ func c15Scenario(cfg c15Cfg) *hx.Scenario {
 			}
 			var rs []ref.RuleRef
 			for i, k := range cfg.Kinds {
-				rs = append(rs, ref.RuleRef{ID: int64(i), Name: ruleNames[i], Sal: int64(9 - 3*i), Fail: k != "W"})
+				rs = append(rs, ref.RuleRef{ID: int64(i), Name: ruleNames[i], Sal: int64(9 - 3*i), Fail: !c15IsW(k)})
 			}
 			b := cfg.B
 			if cfg.Pool != "" {
@@ -174,11 +196,15 @@ func c15Scenario(cfg c15Cfg) *hx.Scenario {
 					if !ran[i] {
 						continue
 					}
-					if c.g.n(i) != 1 {
+					wantN := int64(1)
+					if cfg.SameDc {
+						wantN = int64(len(st.calls))
+					}
+					if c.g.n(i) != wantN {
 						bad("shared-injected", fmt.Sprintf("call %d: rule %s ran but its update of the shared injected object is missing (g.N%d=%d)", ci+1, name, i, c.g.n(i)))
 					}
 					switch k {
-					case "W":
+					case "W", "WO":
 						if !has || v != interface{}(own) {
 							bad("own-value-lost", fmt.Sprintf("call %d: rule %s wrote %d to its local t and returned %v", ci+1, name, own, v))
 						}
@@ -195,7 +221,7 @@ func c15Scenario(cfg c15Cfg) *hx.Scenario {
 				}
 				anyFail := false
 				for i, k := range cfg.Kinds {
-					if ran[i] && k != "W" {
+					if ran[i] && !c15IsW(k) {
 						anyFail = true
 					}
 				}
@@ -339,7 +365,12 @@ func c15Configs(thorough bool) (cfgs []c15Cfg, bounds []int) {
 	for _, w := range []string{"WP", "WE"} {
 		sets = append(sets, []string{w, "R"}, []string{w, "RW"}, []string{"W", w, "R"}, []string{w, "R", "W"}, []string{w, w, "R"})
 	}
-	for _, set := range sets {
+	// locals that hold objects made for one execution (reads go through a method of the object)
+	sets = append(sets, []string{"WO"}, []string{"WO", "WO"}, []string{"WO", "WO", "WO"}, []string{"WO", "W", "R"}, []string{"W", "WO", "RW"})
+	nsets := len(sets)
+	// every set once more with both calls on ONE builder and data context
+	sets = append(sets, sets...)
+	for si, set := range sets {
 		for _, m := range c11Models() {
 			names := m.names
 			if names != nil {
@@ -360,9 +391,11 @@ func c15Configs(thorough bool) (cfgs []c15Cfg, bounds []int) {
 			if n > 0 && len(set) < 3 {
 				n, mm = 1, 1
 			}
-			cfgs = append(cfgs, c15Cfg{Kinds: set, Model: m.name, B: m.b, N: n, M: mm, Names: names, Dag: dag})
+			cfgs = append(cfgs, c15Cfg{Kinds: set, Model: m.name, B: m.b, N: n, M: mm, Names: names, Dag: dag, SameDc: si >= nsets})
 			b := 0
-			if m.conc && len(set) >= 2 {
+			if si >= nsets {
+				b = -1 // the default schedule only
+			} else if m.conc && len(set) >= 2 {
 				b = 4 - len(set) // two rules: 2 preemptions, three rules: 1
 				if thorough {
 					b++
@@ -372,7 +405,7 @@ func c15Configs(thorough bool) (cfgs []c15Cfg, bounds []int) {
 		}
 	}
 	for _, pmn := range []string{"Execute", "ExecuteConcurrent", "ExecuteMixModel", "ExecuteRulesWithMultiInputWithSpecifiedEM"} {
-		for _, set := range [][]string{{"W", "R"}, {"W", "W", "RW"}, {"R", "W", "W"}} {
+		for _, set := range [][]string{{"W", "R"}, {"W", "W", "RW"}, {"R", "W", "W"}, {"WO", "WO"}} {
 			b := 2
 			if thorough {
 				b = 3
@@ -394,7 +427,7 @@ func init() {
 		BudgetQuick: 150 * time.Second,
 		BudgetThor:  25 * time.Minute,
 		Kind:        "schedules",
-		Rule: "all rule sets of 1..3 rules over {W: writes its local t then reads it back, R: reads t without assigning, RW: reads t before first write} plus sets with a writer that fails after writing (rule-level panic / ordinary error) followed by readers in every salience order x all 21 engine models (x policy) x two consecutive calls on one engine; goroutine-spawning models under every schedule with <=2 (thorough 3) deviations from the default scheduler (delay bounding); plus two overlapping pool requests running the same rules with request-unique values; plus call histories in which the same name is a rule local in one call and an injected (shared) name in the next, engine and pool; " +
+		Rule: "all rule sets of 1..3 rules over {W: writes its local t then reads it back, R: reads t without assigning, RW: reads t before first write} plus sets with WO (the local holds an object made for this execution by an injected function and is read through a method of it) plus sets with a writer that fails after writing (rule-level panic / ordinary error) followed by readers in every salience order x all 21 engine models (x policy) x two consecutive calls on one engine (each call with a data context of its own; and, under the default schedule, both calls on one builder and data context); goroutine-spawning models under every schedule with <=2 (thorough 3) deviations from the default scheduler (delay bounding); plus two overlapping pool requests running the same rules with request-unique values; plus call histories in which the same name is a rule local in one call and an injected (shared) name in the next, engine and pool; " +
 			"oracle: R/RW never obtain a value (no result entry, error), every W returns and reads back its own value, updates of the shared injected object are all present",
 		Assume: []string{"strict saliences", "each rule updates its own field of the shared injected object (a concurrent read-modify-write of one host field is the host's business)"},
 		Run: func(c *hx.Ctx) {
@@ -406,6 +439,10 @@ func init() {
 				if c.Expired() {
 					c.Res.Capped = append(c.Res.Capped, "time budget before all configurations")
 					break
+				}
+				if bounds[i] < 0 {
+					hx.Explore("C15", c15Scenario(cfg), hx.ExploreCfg{Bound: 0, DefaultOnly: true}, c.Res)
+					continue
 				}
 				hx.Explore("C15", c15Scenario(cfg), hx.ExploreCfg{Bound: envBound(delayBound(c, bounds[i])), Delay: true, Prune: true, Deadline: c.Deadline}, c.Res)
 			}
